@@ -236,7 +236,7 @@ def same(pred, nat, path=''):
     return []
 
 
-def build_job(res, outcome_state, model, engine=None):
+def build_job(res, outcome_state, model, engine=None, rebase=None):
     """JSON job for native_run from the entry state + the path's call script under `model`."""
     ex, spec = (engine or res.engine), res.spec
     entry = ex.entry_state
@@ -253,8 +253,14 @@ def build_job(res, outcome_state, model, engine=None):
         for f, v in rec.fields.items():
             if f.startswith('ghost_'):
                 continue
+            if rebase and a == ex.self_ref.addr and f in rebase:
+                fields[f] = cz.enc(rebase[f], final.heap)
+                continue
             fields[f] = cz.enc(v, entry.heap if a in entry.heap else final.heap)
         o = {'addr': a, 'cls': rec.cls, 'fields': fields}
+        init = spec.inline.get(rec.cls + '.__init__')
+        if init is not None:
+            o['real'] = [init[0], rec.cls]      # class executed from its real source: build a real instance
         tf = spec.truthy.get(rec.cls)
         if tf is not None:
             o['truthy'] = z3.is_true(cz.ev(tf(ex, entry if a in entry.heap else final, VRef(a, rec.cls))))
@@ -513,12 +519,37 @@ def compare(res, outcome, model, job, cz, nat):
     return 'agree', []
 
 
+def byte_ranges(terms, upto=24):
+    """Elements of byte-string constants are 0..255: explicit instances for the first `upto` positions
+    (bytes are modelled as Seq(Int); the range only matters when a concrete model is replayed)."""
+    consts, seen, stack = {}, set(), list(terms)
+    while stack:
+        e = stack.pop()
+        if e.get_id() in seen:
+            continue
+        seen.add(e.get_id())
+        if z3.is_quantifier(e):
+            stack.append(e.body())
+            continue
+        if z3.is_app(e):
+            if e.num_args() == 0 and e.decl().kind() == z3.Z3_OP_UNINTERPRETED and e.sort() == BytesS:
+                consts[e.decl().name()] = e
+            stack.extend(e.children())
+    out = []
+    for c in consts.values():
+        for i in range(upto):
+            out.append(z3.Implies(z3.Length(c) > i, z3.And(c[i] >= 0, c[i] <= 255)))
+        out.append(z3.Length(c) <= upto * 4)
+    return out
+
+
 def prepare(res, outcome, extra=(), defs=True):
     """-> dict(status=...) | dict(job, cz, model)"""
     st = outcome.state
     add = list(extra)
     if defs:
         add += list(st.heap.get('__defs__', ()))
+    add += byte_ranges(list(st.pc) + add)
     m = refined_model(st.pc, add)
     if m is None:
         return {'status': 'no-model'}
